@@ -57,6 +57,9 @@ MUTANTS = {
     "resolve-drops-fill": (PAD, "        return type(self)(width, height, *args)\n", "        return type(self)(width, height, *args[:2])\n"),
     "top-fill-drops-right": (PAD, '            top_padding = f"{fill * width}\\n" * top if top else ""\n',
                              '            top_padding = f"{fill * (left + render_size.width)}\\n" * top if top else ""\n'),
+    "animation-goes-up-pad-height": (COM, "        lines = max(fmt[-1], self.rendered_height)\n        prev_seek_pos", "        lines = fmt[-1]\n        prev_seek_pos"),
+    "iterator-size-read-once": (COM, "        sent = None\n        n = 0\n        while repeat:\n            if sent is None:\n                image._seek_position = n\n                try:\n                    frame = image._format_render(\n                        image._render_image(img, alpha, frame=True, **style_args), *fmt\n                    )",
+                                "        size0 = image.rendered_size\n        image_fr = type(image)._format_render\n        sent = None\n        n = 0\n        while repeat:\n            if sent is None:\n                image._seek_position = n\n                try:\n                    _s, image._size = image._size, size0\n                    try:\n                        frame = image_fr(image, image._render_image(img, alpha, frame=True, **style_args), *fmt)\n                    finally:\n                        image._size = _s"),
     "revert-the-fix": (COM, '            fill = " " * max(width, cols)\n', '            fill = " " * width\n'),
 }
 
@@ -66,7 +69,7 @@ def sh(cmd, **kw):
 
 
 def restore():
-    sh(f"git -C {REPO} checkout -- . && git -C {REPO} apply {FIX}")
+    sh(f"git -C {REPO} checkout -- .")  # the C05 fix is part of /repo's HEAD since the merge
 
 
 def main():
